@@ -1,7 +1,7 @@
 (* Src_reader.v — the stream-reading methods of UBXReader (gen/PySrcIO.v, translated from the source on every run)
    against the hand-written reader model (model/Reader.v). *)
 From Coq Require Import ZArith List String Ascii Bool Lia ZifyBool.
-From PyUbx Require Import Base Bytes Fletcher Frame Reader PyFloat Types Strs Walk Consts Tables Msg PyMini PySrcIO Tac Bytes_lemmas Src_common.
+From PyUbx Require Import Base Bytes Fletcher Frame Reader PyFloat Types Strs Walk Consts Tables Msg PyMini PySrcIO Tac Bytes_lemmas Src_common Read_iter.
 Import ListNotations.
 Open Scope Z_scope.
 
@@ -332,23 +332,8 @@ Hypothesis T_read : mem_s "py_ioread" translated_io = true.
 
 (* what one call of read() does in the model: iterate `step` until something is delivered, the stream ends or an
    exception leaves; `log`: what was reported to the logger / error handler on the way (newest first) *)
-Inductive rres := RItem (raw : bytes) (po : option P) | REnd | RRaise (e : exn) | RFuel.
-
-Fixpoint read_one (fuel : nat) (s : S) (log : list exn) : rres * S * list exn :=
-  match fuel with
-  | O => (RFuel, s, log)
-  | Datatypes.S f =>
-    match step c s with
-    | (Deliver raw po, s') => (RItem raw po, s', log)
-    | (Skip, s') => read_one f s' log
-    | (Reject e, s') =>
-        if (quitonerror c =? 2)%N then (RRaise e, s', log)
-        else if (quitonerror c =? 1)%N then read_one f s' (e :: log)
-        else read_one f s' log
-    | (Eof, s') => (REnd, s', log)
-    | (Foreign e, s') => (RRaise e, s', log)
-    end
-  end.
+Notation rres := (@Read_iter.rres P).
+Notation read_one := (@Read_iter.read_one S P rd rdl parse nmea_hdr c).
 
 Definition effs (log : list exn) : list (string * list gv) := map (fun e => (logname, [Exn e])) log.
 
@@ -693,11 +678,8 @@ Qed.
 Lemma read_one_log fuel : forall s l,
   read_one fuel s l = let '(r, s', log) := read_one fuel s [] in (r, s', (log ++ l)%list).
 Proof.
-  induction fuel as [|f IH]; intros s l; cbn [read_one]; [reflexivity|].
-  destruct (step c s) as [[raw po| |e| |e] s']; try reflexivity.
-  - apply IH.
-  - destruct (quitonerror c =? 2)%N; [reflexivity|]. destruct (quitonerror c =? 1)%N; [|apply IH].
-    rewrite (IH s' (e :: l)), (IH s' [e]). destruct (read_one f s' []) as [[r s''] log]. now rewrite <- app_assoc.
+  intros s l. rewrite !(Read_iter.read_one_read1 rd rdl parse nmea_hdr c).
+  destruct (Read_iter.read1 rd rdl parse nmea_hdr c fuel s) as [[[r s'] l1] k]. now rewrite app_nil_r.
 Qed.
 
 Notation py_loop fuel := (g_while fuel py_test1 py_body1).
